@@ -217,6 +217,9 @@ func Concretize(x int) int     { return x }
 func Sleep(ms int)             { time.Sleep(time.Duration(ms) * time.Millisecond) }
 func Symbolic() bool           { return false }
 func LimitWrites(fd int, n int) {}
+
+// SetTicks: the next time.NewTicker channel is pre-loaded with n ticks (model only: a native run has real tickers).
+func SetTicks(n int) {}
 func Note(s string) {
 	if os.Getenv("VERIF_TRACE") != "" {
 		fmt.Fprintln(os.Stderr, "    "+s)
